@@ -157,6 +157,22 @@ def run(ctx):
             nontrivial += 1
         if vd != "ok":
             ctx.violation(f"{vd}: {json.dumps(c)[:400]}", c, key=KNOWN.get(vd))
+    # failed makegateway calls under concurrency: the real Group id code (allocate_id / _register / makegateway) in the group simulator
+    # with line-level preemption; spec/XSpecCases.tla (Group automaton) names the calls that left a process behind
+    from drivers import c20
+
+    gcases, gmetas, gruns = [], [], 0
+    for prog in c20.group_programs(random.Random(ctx.seed + 5), 0 if ctx.quick else 10):
+        out = c20._group_job((prog, 300 if ctx.quick else 1500, 25 if ctx.quick else 200, ctx.seed))
+        gruns += out["runs"]
+        for _key, (pr, decisions, events) in out["traces"].items():
+            gcases.append({"k": "group", "events": events})
+            gmetas.append({"program": pr, "decisions": decisions})
+    for m, vd in zip(gmetas, batch.judge("XSpecCases", gcases, ctx.scratch)):
+        hist["group:" + vd] = hist.get("group:" + vd, 0) + 1
+        if vd.startswith("C05."):
+            ctx.violation(f"{vd}: {json.dumps(m)[:300]}", m, key={"C05.concurrent-id-collision-leaves-a-process-behind": "concurrent-id-collision"}.get(vd))
+    ctx.coverage["group_id_schedules"] = {"runs": gruns, "distinct_traces": len(gcases)}
     ctx.coverage.update({
         "states": r.distinct, "transitions": r.generated, "traces_validated_against_impl": len(results),
         "evaluations": len(results), "distinct_nontrivial": nontrivial,
